@@ -9,7 +9,7 @@ ASSUME = ['demonic oracle (kani/src/oracle.rs): any correct SatSolver may return
 def run(tier, seed):
     return kani_check.run("C07", ["c07_"], tier, seed, dict(
         functions=FUNCS, bounds="queries over lists of two arguments (all ordered pairs, repetitions included), with and without certificate; " + BOUNDS, assumptions=ASSUME),
-        jobs=6)
+        jobs=8 if tier == "thorough" else 6)
 
 
 def replay(path):
